@@ -3,6 +3,7 @@ import json
 
 import vlib
 from areas import vec
+from areas import vec_tie
 
 PROP = "C09"
 
@@ -17,6 +18,7 @@ def neighbourhood(script):
 
 def run(chk):
     c_exe, m_exe = vlib.prepare_area(chk, vec, leanchecker=True)
+    vec_tie.tie_run(chk, vec_tie.TIE_BY_PROP["C09"])
     if c_exe:
         quick = chk.tier == "quick"
         vlib.run_scripts(chk, vec, c_exe, m_exe, vec.corpus(PROP), vec.oracle)
